@@ -60,10 +60,14 @@ theorem pseudoprime_word_eq (p : Nat) : pseudoprimeW p = pseudoprime p := by
         rfl
 
 /-- non-vacuity on concrete multiword inputs, computed by the kernel on the limb-level model: the
-68-bit prime `12·2^64 + 1` (low word 1: `s = 64`, even `p >> s`) here, the composite `2^128 + 1`
-(3 words) below; the 8-word inputs (e.g. the largest 512-bit prime `2^512 - 569`) are run through
-the same definitions by the native driver (op `pseudoprime_word`, K stream of props/c06.py). -/
-example : pseudoprimeW 221360928884514619393 = some true := by decide +kernel
+Miller steps for the first and the last base on the 68-bit prime `12·2^64 + 1` (low word 1:
+`s = 64`, even `p >> s = 12`) here, the whole function on the composite `2^128 + 1` (3 words)
+below; accepted inputs at all 46 bases and 8-word inputs (e.g. the largest 512-bit prime
+`2^512 - 569`) are run through the same definitions by the native driver (op `pseudoprime_word`,
+K stream of props/c06.py). -/
+example : (ZmodN.new 221360928884514619393).bind
+    (fun c => (millerBaseW c 64 12 2).bind fun a => (millerBaseW c 64 12 199).map fun b => (a, b))
+    = some (true, true) := by decide +kernel
 
 /-- **No panic at word level**: for every `p < 2^512` (even, one word, 2..8 words) the word-level
 model returns; in particular none of the `debug_assert!`s of `ZmodN::mul` / `ZmodN::sub`, the
@@ -145,5 +149,23 @@ theorem pseudoprime_word_iff_sprp_partial (p : Nat) (hodd : p % 2 = 1) (hW : 2 ^
 `p mod 2^65 = p ≠ 1`) -/
 example : pseudoprimeW (2 ^ 64 + 13) = some true ↔ ∀ b ∈ smallPrimes, SPRP (2 ^ 64 + 13) b :=
   pseudoprime_word_iff_sprp_partial _ (by decide) (by decide) (by decide +kernel) (by decide)
+
+/-- **Why `p ≡ 1 (mod 2^65)` is excluded above** (counter-witness at the level of one base): for
+`n = 5 · 1010881575239283428557 = 137·2^65 + 1` (73 bits, low word 1) the code takes `s = 64` and
+the even exponent `n >> 64 = 274`; for `b = 1010881575239283428556` (a square root of 1 other than
+±1) the Miller step of `pseudoprime` answers `true` (`b^274 = 1`) although `n` is not a strong
+probable prime to base `b` (`b^137 = b ≠ ±1`, `b^(137·2^r) = 1` for `r ≥ 1`).  `b` is not one of
+the 46 bases: no input on which `pseudoprime` itself is fooled this way is known. -/
+theorem millerBase_low_word_one_counterexample :
+    (5054407876196417142785 : Nat) % 2 ^ 65 = 1 ∧
+    tz64 (5054407876196417142785 % W - 1) = 64 ∧
+    millerBase 5054407876196417142785 64 (5054407876196417142785 / 2 ^ 64)
+      1010881575239283428556 = true ∧
+    ¬ SPRP 5054407876196417142785 1010881575239283428556 := by
+  refine ⟨by decide +kernel, by decide +kernel, by decide +kernel, ?_⟩
+  rw [← millerBase_iff_SPRP 5054407876196417142785 65 137 1010881575239283428556 (by decide)
+    (by decide) (by decide) (by decide +kernel)
+    (lt_trans (by decide : 137 < 2 ^ 8) (Nat.pow_lt_pow_right (by decide) (by decide)))]
+  decide +kernel
 
 end Ymq.C06
